@@ -844,4 +844,53 @@ def search(res, tier, boost=False):
         if not np.array_equal(got, want):
             res.violation('C08:vector-not-own-loads:cache-element-order', dict(order=nm, phase=ph, got=[float(v) for v in got[:6]], want=[float(v) for v in want[:6]]))
             break
+    # the caching logic of linform_vector on LARGE lists (256 ... 400 elements, as the later iterations of an adaptive loop
+    # have them): two requests of equal length that agree in their first and last elements and differ in between, against one
+    # cache directory.  The loads themselves are replaced by a cheap stand-in (an instance attribute `linform`), so that only
+    # the bookkeeping is exercised: every vector is the caller's own loads in the caller's order.
+    import shutil
+    import tempfile
+    tmpd = tempfile.mkdtemp(prefix='c08big_', dir='/tmp')
+    try:
+        with contextlib.redirect_stdout(io.StringIO()):
+            mesh_b = MeshParametrized(Pm_.UnitSquare())
+            for _ in range(3):
+                mesh_b.uniform_refine()
+            if rng.random() < 0.5:
+                for e in rng.sample(list(mesh_b.leaf_elements), 6):
+                    if not e.children:
+                        mesh_b.refine_space(e)
+
+        def stand_in(e):
+            return (7.0 * float(e.time_interval[0]) + 13.0 * float(e.space_interval[0]) + float(e.space_interval[1]) + 0.5 * float(e.time_interval[1]), 0)
+        base = list(mesh_b.leaf_elements)
+        mid = base[5:-5]
+        variants = [('leaf-order', base)]
+        for nm_ in ('middle-reversed', 'middle-shuffled'):
+            m2 = list(mid)
+            if nm_ == 'middle-reversed':
+                m2.reverse()
+            else:
+                rng.shuffle(m2)
+            variants.append((nm_, base[:5] + m2 + base[-5:]))
+        for round_ in ('cold', 'later-operator'):
+            with contextlib.redirect_stdout(io.StringIO()):
+                op_b = InitialOperator(bdr_mesh=mesh_b, u0=lambda xy: 1 + xy[0], initial_mesh=UnitSquareBoundaryRefined, cache_dir=tmpd)
+            op_b.linform = stand_in
+            for nm_, lst in variants:
+                with contextlib.redirect_stdout(io.StringIO()):
+                    got = np.asarray(op_b.linform_vector(elems=lst)).reshape(-1)
+                want = np.array([stand_in(e)[0] for e in lst])
+                res.count(('cache-large-list', round_, nm_, len(lst)), True)
+                if got.shape != want.shape or not np.array_equal(got, want):
+                    nbad = int(np.sum(got != want)) if got.shape == want.shape else -1
+                    res.violation('C08:vector-not-own-loads:cache-large-list',
+                                  dict(order=nm_, phase=round_, n=len(lst), wrong_entries=nbad,
+                                       history='linform_vector on %s against one cache directory; loads replaced by a stand-in' %
+                                               [v[0] for v in variants]))
+                    break
+    except AssertionError as exc:
+        res.notes['cache_large_list_skipped'] = repr(exc)
+    finally:
+        shutil.rmtree(tmpd, ignore_errors=True)
     res.notes['worst_rel_error'] = worst
